@@ -294,6 +294,9 @@ func GenSession(prop string, seed uint64, thorough bool) *Scenario {
 		if g.p(p.pB64) {
 			c.B64 = true
 		}
+		if c.Transport == "polling" && g.p(0.15) {
+			c.NoCL = true // a client (or proxy) that streams its request bodies: no Content-Length
+		}
 		if c.Transport == "polling" && g.p(p.pJSONP) {
 			c.JSONP, c.B64, c.J = true, true, fmt.Sprint(g.IntN(20))
 		}
@@ -457,6 +460,12 @@ func GenSession(prop string, seed uint64, thorough bool) *Scenario {
 			if int64(m.Size) > 50000 {
 				m.Size = 5000
 			}
+			if !m.Binary && g.p(0.25) {
+				m.Chars = g.picks("html", "esc", "uni", "num", "esc")
+				if m.Size < 12 {
+					m.Size = g.pick(12, 20, 40)
+				}
+			}
 			c.Sends = append(c.Sends, m)
 		}
 		if !sc.FaultFree {
@@ -497,6 +506,17 @@ func GenSession(prop string, seed uint64, thorough bool) *Scenario {
 				at += g.pick(0, 0, 1, 10, 100)
 			}
 			op := AppOp{AtMs: at, Task: task, Op: "send", Sess: cl.Name, ID: fmt.Sprintf("%s.%s.%d", cl.Name, task, k), Size: g.size(&p), Binary: g.p(p.pBinary), CB: g.p(p.pCB), UseWrite: g.p(0.1)}
+			if !op.Binary && g.p(0.25) {
+				op.Chars = g.picks("html", "esc", "uni", "num", "html")
+				if op.Chars == "uni" && cl.EIO == 3 && !cl.B64 && !cl.JSONP && cl.Transport == "polling" && prop != "C16" {
+					// a revision-3 binary-form payload (text and binary packets in one batch) with non-ASCII text trips a
+					// defect of the parser dependency (known finding of C16) that ends the client: keep it to C16's runs
+					op.Chars = "html"
+				}
+				if op.Size < 16 {
+					op.Size = g.pick(16, 30, 60)
+				}
+			}
 			if g.p(p.pNoCompress) {
 				op.Opt = "nocompress"
 			} else if g.p(p.pPreEncoded) && !o.PMD {
@@ -536,6 +556,13 @@ func genClientFaults(g *G, p *profile, sc *Scenario, c *ClientSpec, pi, pt int) 
 		c.PongDelayMs = []int{0, g.pick(pt-1, pt, pt+1, pt+50, -1)}
 		if g.p(0.5) {
 			c.PongDelayMs = []int{g.pick(pt-1, pt, pt+1, -1)}
+		}
+	}
+	if c.EIO == 4 && g.p(p.pLatePong*0.6) {
+		// unsolicited / duplicated pongs at arbitrary instants (before the first ping, between ping and deadline, after a pong)
+		n := g.rng(1, 3)
+		for i := 0; i < n; i++ {
+			c.Faults = append(c.Faults, FaultSpec{AtMs: g.rng(0, h*4/5), Kind: "extra-pong", Arg: g.pick(1, 1, 2)})
 		}
 	}
 	if g.p(p.pSilence) {
